@@ -169,7 +169,10 @@ func c18Run(p c18Plan, seed string) (opsDone map[string]int64, inconclusive stri
 					time.Sleep(time.Millisecond)
 				case "truncate":
 					if p.Deep {
-						truncOnce.Do(func() { book.VerifTruncate(context.Background()) })
+						truncOnce.Do(func() {
+							time.Sleep(40 * time.Millisecond) // let the readers touch the old vertices first: an unlocked read BEFORE the cut races with it too
+							book.VerifTruncate(context.Background())
+						})
 					}
 					time.Sleep(2 * time.Millisecond)
 				case "gossip-handler":
@@ -303,6 +306,19 @@ func TestC18(t *testing.T) {
 		p := planGen.Example(base + caseNo)
 		if caseNo == 1 && shard()%4 == 1 {
 			p.RealLoop = true // at least a few workloads of every run race with the node's own truncation loop
+		}
+		if caseNo == 2 && shard()%2 == 1 {
+			// ... and a few have a hook-triggered truncation of a deep DAG overlapping by-hash reads of old vertices and
+			// stream consumers that read what they are handed
+			p.Deep, p.RealLoop = true, false
+			for i, op := range []string{"truncate", "read-vertex", "read-vertex", "stream", "stream", "balance"} {
+				if 2+i < len(p.Scripts) {
+					p.Scripts[2+i] = op
+				} else {
+					p.Scripts = append(p.Scripts, op)
+				}
+			}
+			p.Goroutines = len(p.Scripts)
 		}
 		writers := 0
 		for _, op := range p.Scripts {
